@@ -8,6 +8,7 @@
 //     code, two identical dumps of parked gqlgen/generated goroutines = stable blocked state;
 //   - no leak: after the request ended and its context is cancelled, no goroutine with a
 //     generated-package or gqlgen/graphql frame exists at quiescence.
+//
 // Part 2: the same over real HTTP transports (POST, GET, SSE, multipart/mixed) and websocket
 // with client disconnects.
 package main
@@ -88,7 +89,7 @@ func main() {
 	}
 	var names []string
 	for n := range registry.Probes {
-		if (strings.HasPrefix(n, "core_") || strings.HasPrefix(n, "rnd_") || strings.HasPrefix(n, "bound")) {
+		if strings.HasPrefix(n, "core_") || strings.HasPrefix(n, "rnd_") || strings.HasPrefix(n, "bound") {
 			names = append(names, n)
 		}
 	}
